@@ -105,6 +105,9 @@ pub enum Sibling {
     /// exchange the widths of two scalar fields that have different widths (`a: 8 … b: 16` →
     /// `a: 16 … b: 8`): another description of exactly the same length under the same name
     SwapTwoWidths(u64),
+    /// give the arrays without a count (`[]`) chosen by the mask a static count (`[2]`): the same
+    /// declarations at the same positions of the file, with other size properties
+    FixArrays(u64),
 }
 
 /// Identifiers that generated code uses for its own locals / helpers in some backend.
@@ -115,7 +118,8 @@ pub const SUSPICIOUS_IDENTS: [&str; 24] = [
 
 impl Sibling {
     pub fn draw(rng: &mut Rng) -> Sibling {
-        match rng.below(9) {
+        match rng.below(10) {
+            9 => Sibling::FixArrays(rng.next() | rng.next()),
             8 => Sibling::SwapTwoWidths(rng.next()),
             0 => Sibling::FlipEndian,
             1 => Sibling::SwapWidths(rng.next()),
@@ -139,6 +143,7 @@ impl Sibling {
             Sibling::RenameField(n, k) => serde_json::json!({"kind": "rename_field", "n": n, "k": k}),
             Sibling::AddComments(x) => serde_json::json!({"kind": "add_comments", "seed": x.to_string()}),
             Sibling::SwapTwoWidths(x) => serde_json::json!({"kind": "swap_two_widths", "seed": x.to_string()}),
+            Sibling::FixArrays(m) => serde_json::json!({"kind": "fix_arrays", "mask": m.to_string()}),
         }
     }
     pub fn from_json(v: &Value) -> Option<Sibling> {
@@ -151,12 +156,26 @@ impl Sibling {
             "rename_field" => Some(Sibling::RenameField(v["n"].as_u64()?, v["k"].as_u64()?)),
             "add_comments" => Some(Sibling::AddComments(v["seed"].as_str()?.parse().ok()?)),
             "swap_two_widths" => Some(Sibling::SwapTwoWidths(v["seed"].as_str()?.parse().ok()?)),
+            "fix_arrays" => Some(Sibling::FixArrays(v["mask"].as_str()?.parse().ok()?)),
             _ => None,
         }
     }
 
     pub fn apply(&self, text: &str) -> String {
         match self {
+            Sibling::FixArrays(mask) => {
+                let mut out = String::with_capacity(text.len() + 16);
+                let mut k = 0u32;
+                let mut rest = text;
+                while let Some(p) = rest.find("[]") {
+                    out.push_str(&rest[..p]);
+                    out.push_str(if (mask >> (k % 64)) & 1 == 1 { "[2]" } else { "[]" });
+                    k += 1;
+                    rest = &rest[p + 2..];
+                }
+                out.push_str(rest);
+                out
+            }
             Sibling::SwapTwoWidths(seed) => {
                 // occurrences of `: <digits>` followed by , } or whitespace
                 let b = text.as_bytes();
